@@ -267,6 +267,13 @@ def _mcp_check(tier, seed):
         expect['calc_mixed'] = {'kind': 'result', 'digest': cli_digest(['report', '--format', 'json', '--year', '2024', 'g2.cgt'], core)}
         for n in ('bad_args', 'bad_dsl', 'bad_json', 'bad_json_wide_a', 'bad_json_wide_b', 'bad_json_wide_c', 'uncovered', 'no_exemption', 'big_year', 'explain_missing', 'unknown_tool', 'res_bad'):
             expect[n] = {'kind': 'error', 'digest': ''}
+        # every class expected to fail is also sent alone: it must be ANSWERED (C15/C20: a tool call never dies silently)
+        failing = [n for n in names if n in expect and expect[n]['kind'] == 'error']
+        with ThreadPoolExecutor(max_workers=8) as ex:
+            alone = list(ex.map(lambda a: play(root, f'fail{a[0]}', [('send', a[1])], cls), enumerate(failing)))
+        for n, (ev, resp) in zip(failing, alone):
+            if 2 not in resp:
+                findings.append({'prop': 'C20', 'kind': 'unanswered', 'case': 0, 'detail': f'a solitary {n} request was never answered', 'input': json.dumps(cls[n])[:2000], 'data': {'class': n}})
         solo = [n for n in names if n not in expect] + ['initialize']
         with ThreadPoolExecutor(max_workers=8) as ex:
             solos = list(ex.map(lambda a: play(root, f'solo{a[0]}', [('send', a[1])] if a[1] != 'initialize' else [], cls), enumerate(solo)))
@@ -427,6 +434,30 @@ def _mcp_check(tier, seed):
                 findings.append({'prop': 'C07', 'kind': 'mcp_year_boundary', 'case': 0, 'input': d, 'data': {},
                                  'detail': f'calculate_report(year={want[d] - 1}) lists the disposal of {d}, which belongs to {want[d]}'})
         log(f'[mcp] {nb} boundary-date requests (5/6 April, leap days, year ends 2015-2025) through the real server')
+        # ---- malformed JSON whose offending line is long and full of multi-byte text, the error in the middle of the
+        # line, at every byte alignment (anything that cuts the line at a fixed byte offset splits a character)
+        wcls, script = dict(cls), []
+        tools = ('parse_transactions', 'calculate_report', 'convert_to_dsl', 'explain_matching')
+        for k in range(12):
+            note = 'куплено на закрытии торгов ' * 3 + 'é€' * 20 + 'x' * k
+            bad = ('[{"date":"2024-01-15","ticker":"GLE","action":"BUY","amount":"100","price":"24.50","note":"' + note + '"},'
+                   '{"date":"2024-06-20","ticker":"GLE","action":"SELL","amount":"5' + '0' * (k % 4) + '"},{"note":"' + 'дивиденды € ' * 20 + '"}]')
+            args = {'transactions': bad}
+            if tools[k % 4] == 'explain_matching':
+                args.update({'disposal_date': '2024-06-20', 'ticker': 'GLE'})
+            wcls[f'wide_{k}'] = call(tools[k % 4], args)
+            script.append(('send', f'wide_{k}'))
+        script.append(('send', 'parse'))
+        ev, resp = play(root, 'wide', script, wcls, patience=20)
+        sent = {e['id']: e['class'] for e in ev if e['event'] == 'Send'}
+        for rid, k in sent.items():
+            if rid not in resp:
+                findings.append({'prop': 'C20', 'kind': 'unanswered', 'case': 0, 'input': json.dumps(wcls[k])[:3000], 'data': {'class': k},
+                                 'detail': f'request {k} (malformed JSON on a long line of multi-byte text) was never answered'})
+            elif k.startswith('wide_') and digest_of(resp[rid])[0] != 'error':
+                findings.append({'prop': 'C20', 'kind': 'malformed_accepted', 'case': 0, 'input': json.dumps(wcls[k])[:3000], 'data': {'class': k},
+                                 'detail': f'request {k} carries malformed transactions but was answered with a result'})
+        log(f'[mcp] {len(script) - 1} malformed-JSON requests with the error at every byte alignment of a multi-byte line')
         # ---- known: a panicking calculation is never answered
         ev, resp = play(root, 'ovf', [('send', 'overflow'), ('send', 'calc_all')], cls, patience=6)
         if 2 not in resp:
